@@ -62,14 +62,36 @@ def rsaVerifyReal (pss : Bool) (h : String) (n e msg sig : Bs) : Bool :=
     if pss then rsaPssVerify a (natOfBs n) (natOfBs e) (natsToBA msg) (natsToBA sig) (some a.size)
     else rsaPkcs1v15Verify a (natOfBs n) (natOfBs e) (natsToBA msg) (natsToBA sig)
 
-def rsaSignReal (pss : Bool) (h : String) (n d msg rnd : Bs) : Option Bs :=
-  match hashAlgOfName h with
-  | none => none
-  | some a =>
+/-- the private exponent OpenSSL effectively applies: with complete CRT parameters the CRT
+    result is used when it verifies (x^e = c), which is the case exactly when p·q = n and
+    dp, dq, qi are consistent with e; we reconstruct an equivalent exponent from p, q, e then.
+    Otherwise the key's own `d`. -/
+def effectiveD (k : RsaPriv) : Option Nat :=
+  let n := natOfBs k.n
+  let e := natOfBs k.e
+  let fromCrt : Option Nat :=
+    match k.crt with
+    | some (p, q, dp, dq, qi) =>
+      let p' := natOfBs p; let q' := natOfBs q
+      if p' * q' == n && p' > 1 && q' > 1 then
+        match modInv e ((p' - 1) * (q' - 1)) with
+        | some d =>
+          if natOfBs dp == d % (p' - 1) && natOfBs dq == d % (q' - 1) && (natOfBs qi * q') % p' == 1 then some d else none
+        | none => none
+      else none
+    | none => none
+  match fromCrt with
+  | some d => some d
+  | none => k.d.map natOfBs
+
+def rsaSignReal (pss : Bool) (h : String) (k : RsaPriv) (msg rnd : Bs) : Option Bs :=
+  match hashAlgOfName h, effectiveD k with
+  | some a, some d =>
     if pss then
       let salt := (Crypto.hash a (natsToBA rnd))
-      (rsaPssSign a (natOfBs n) (natOfBs d) (natsToBA msg) salt).map baToNats
-    else (rsaPkcs1v15Sign a (natOfBs n) (natOfBs d) (natsToBA msg)).map baToNats
+      (rsaPssSign a (natOfBs k.n) d (natsToBA msg) salt).map baToNats
+    else (rsaPkcs1v15Sign a (natOfBs k.n) d (natsToBA msg)).map baToNats
+  | _, _ => none
 
 def ecGenReal (crv : String) (rnd : Bs) : Option (Bs × Bs × Bs) :=
   match curveOfName crv with
@@ -119,10 +141,11 @@ def rsaEncReal (oaep : Option String) (n e msg rnd : Bs) : Option Bs :=
     let ps := (stream.take psLen).map (fun b => if b = 0 then 1 else b)
     (rsaPkcs1v15Encrypt (natOfBs n) (natOfBs e) (natsToBA msg) (natsToBA ps)).map baToNats
 
-def rsaDecReal (oaep : Option String) (n d ct : Bs) : Option Bs :=
+def rsaDecReal (oaep : Option String) (k : RsaPriv) (ct : Bs) : Option Bs :=
+  (effectiveD k).bind fun d =>
   match oaep with
-  | some h => (hashAlgOfName h).bind fun a => (rsaOaepDecrypt a (natOfBs n) (natOfBs d) (natsToBA ct)).map baToNats
-  | none => (rsaPkcs1v15Decrypt (natOfBs n) (natOfBs d) (natsToBA ct)).map baToNats
+  | some h => (hashAlgOfName h).bind fun a => (rsaOaepDecrypt a (natOfBs k.n) d (natsToBA ct)).map baToNats
+  | none => (rsaPkcs1v15Decrypt (natOfBs k.n) d (natsToBA ct)).map baToNats
 
 def pbkdf2Real (h : String) (pw salt : Bs) (iter : Int) (dkLen : Nat) : Option Bs :=
   if iter < 1 then none
